@@ -211,6 +211,42 @@ def run_cue(case):
         return run_bytes(p)
 
 
+# ----------------------------------------------------------------------------- damaged containers
+def container_cases():
+    """the wrapper around the image is input too: the 64-bit length field of the MDX header (too small, off by one, far
+    beyond the real end), its other header bytes, and raw-sector images whose length is not a whole number of sectors"""
+    out = []
+    for payload in ("akai", "akai-empty", "zeros", "ff", "roland"):
+        for eof in ("0", "1", "63", "64", "65", "real-1", "real", "real+1", "2real", "2^31", "2^32", "2^36", "2^40", "2^63-1", "2^64-1"):
+            out.append({"what": "mdx-eof", "payload": payload, "eof": eof})
+        out.append({"what": "mdx-version", "payload": payload})
+        out.append({"what": "mdx-tail-cut", "payload": payload})
+    for cut in (1, 15, 16, 17, 2063, 2064, 2065, 2351, 2353, 2352 * 3 + 16 + 5):
+        out.append({"what": "raw2352-cut", "payload": "akai", "cut": cut})
+    return out
+
+
+def container_bytes(c):
+    from mcv.gen import containers as C
+    pay = {"akai": lambda: subject("akai")[0],
+           "akai-empty": lambda: A.build_akai(A.model_from_spec({"parts": [{"size": 4, "vols": []}]}))[0],
+           "zeros": lambda: bytes(32768), "ff": lambda: b"\xff" * 32768,
+           "roland": lambda: subject("roland")[0]}[c["payload"]]()
+    if c["what"] == "raw2352-cut":
+        return C.mode1_2352(pay)[:c["cut"]] if c["cut"] < 3 * 2352 else C.mode1_2352(pay)[:c["cut"]]
+    b = bytearray(C.mdx(pay))
+    real = len(b)
+    if c["what"] == "mdx-eof":
+        v = {"0": 0, "1": 1, "63": 63, "64": 64, "65": 65, "real-1": real - 1, "real": real, "real+1": real + 1, "2real": 2 * real,
+             "2^31": 2 ** 31, "2^32": 2 ** 32, "2^36": 2 ** 36, "2^40": 2 ** 40, "2^63-1": 2 ** 63 - 1, "2^64-1": 2 ** 64 - 1}[c["eof"]]
+        b[48:56] = struct.pack("<Q", v)
+    elif c["what"] == "mdx-version":
+        b[16:18] = b"\x00\x00"
+    elif c["what"] == "mdx-tail-cut":
+        b = b[:64 + (real - 64) // 2 + 3]
+    return bytes(b)
+
+
 # ----------------------------------------------------------------------------- growth of the work with the input size
 SCALE_FAMILIES = ["cdda_same_title", "cdda_distinct", "akai_same_name", "akai_distinct", "akai_chain", "akai_pairs", "akai_volumes",
                   "roland_same_name", "roland_distinct", "cue_rem_lines"]
@@ -344,7 +380,8 @@ class Check(CheckBase):
             "65535}, FAT id/version, the five ID-area counts, pointer-list entries of volume/performance/patch/partial, sample "
             "fat_entry/type/loop points/loop mode/cluster_top/options; (cue) every line deleted / duplicated / replaced by 8 "
             "hostile lines and by 70 regular-expression stress lines (keyword + unterminated quote/number list + 40 x one character), "
-            "bin missing or empty; thorough: ALL PAIRS of table faults (AKAI SAT x SAT, Roland FAT x FAT) and "
+            "bin missing or empty; (containers) MDX header length field x 15 values (0 .. real+-1 .. 2^64-1) x 5 payloads, damaged MDX "
+            "version, MDX cut in the middle, MODE1/2352 images cut at 10 odd lengths; thorough: ALL PAIRS of table faults (AKAI SAT x SAT, Roland FAT x FAT) and "
             "all pairs (table fault, pointer/entry fault). Every run = ls at the root and at every reachable node + export, "
             "under an 8 s CPU budget (clean run: 0.03-0.3 s) and a 6 GiB address-space limit; (growth) 10 input families whose size "
             "grows linearly with n (n CDDA tracks with one / distinct titles, n AKAI files with one / distinct names, n/2 L/R pairs, "
@@ -382,6 +419,7 @@ class Check(CheckBase):
         lk = [f for f in pg if f[0].startswith("PROG.next@")]
         multi += [[a, b, c] for a in fa for b in nk for c in lk]
         out += [{"kind": "faults", "subject": "akai", "cases": multi[i:i + 60]} for i in range(0, len(multi), 60)]
+        out.append({"kind": "containers"})
         for fam in SCALE_FAMILIES:
             for n in ((60,) if self.quick else (60, 150)):
                 out.append({"kind": "scaling", "family": fam, "n": n})
@@ -414,13 +452,19 @@ class Check(CheckBase):
                 ok, klass, detail = run_cue(c["case"])
             elif c["kind"] == "scaling":
                 ok, klass, detail = run_scaling(c)
+            elif c["kind"] == "container":
+                ok, klass, detail = run_bytes(container_bytes(c))
             else:
                 ok, klass, detail = run_bytes(apply_faults(c["subject"], c["faults"]))
             rep.case(c, ok=ok, klass=klass, detail=detail, sig=f"{c['kind']}:{klass}")
             return
         kind = shard["kind"]
         hangs = 0
-        if kind == "scaling":
+        if kind == "containers":
+            for c in container_cases():
+                ok, klass, detail = run_bytes(container_bytes(c))
+                rep.case(dict(c, kind="container"), ok=ok, klass=klass, nontrivial=True, detail=detail, sig="container:" + klass + ":" + c["what"])
+        elif kind == "scaling":
             ok, klass, detail = run_scaling(shard)
             rep.case({"kind": "scaling", "family": shard["family"], "n": shard["n"]}, ok=ok, klass=klass, nontrivial=True, detail=detail,
                      sig="scaling:" + klass + (":" + detail["function"] if detail and "function" in detail else ""))
